@@ -1,6 +1,7 @@
 package c09
 
 import (
+	"errors"
 	"fmt"
 
 	lindbkv "github.com/lindb/lindb/kv"
@@ -55,6 +56,19 @@ func newRunner(c *core.Ctx, dbName string, nShards, maxSeries int) (*runner, err
 }
 
 func (r *runner) close() { r.s.destroy() }
+
+// abort: the case cannot go on because op did not succeed (reopen / crash recovery / a flush step failed or
+// panicked inside lindb). That is a failure of the CASE (area.Run reports it as an oracle failure with the
+// case's ops as the failing input), not of the run — unless the harness's own file handling failed.
+func (r *runner) abort(op, out string) {
+	err := fmt.Errorf("%s: %s", op, out)
+	if strings.HasPrefix(out, harnessPrefix) {
+		err = harnessError{err}
+	}
+	if r.err == nil {
+		r.err = err
+	}
+}
 
 // guard runs f; a panic inside lindb becomes an oracle failure and the output "panic".
 func (r *runner) guard(op string, f func() string) string {
@@ -305,7 +319,7 @@ func (r *runner) iflush(shard int) {
 func (r *runner) reopen() {
 	out := r.guard("reopen", func() string { return okOut(r.s.reopen()) })
 	if out != "ok" {
-		r.err = fmt.Errorf("reopen: %s", out)
+		r.abort("reopen", out)
 		return
 	}
 	r.c.Branch("reopen")
@@ -315,7 +329,7 @@ func (r *runner) reopen() {
 func (r *runner) crash() {
 	out := r.guard("crash", func() string { return okOut(r.s.crash()) })
 	if out != "ok" {
-		r.err = fmt.Errorf("crash: %s", out)
+		r.abort("crash", out)
 		return
 	}
 	r.c.Branch("crash")
@@ -332,7 +346,7 @@ func (r *runner) mflushcrash(k int) {
 		return okOut(r.s.crash())
 	})
 	if out != "ok" {
-		r.err = fmt.Errorf("%s: %s", op, out)
+		r.abort(op, out)
 		return
 	}
 	if k >= 1 {
@@ -352,7 +366,7 @@ func (r *runner) iflushcrash(shard, k int) {
 		return okOut(r.s.crash())
 	})
 	if out != "ok" {
-		r.err = fmt.Errorf("%s: %s", op, out)
+		r.abort(op, out)
 		return
 	}
 	r.c.Branch(fmt.Sprintf("crash-in-index-flush-%d", k))
@@ -364,7 +378,7 @@ func (r *runner) iflushimg(shard, j int) {
 	op := fmt.Sprintf("iflushimg %d %d", shard, j)
 	out := r.guard(op, func() string { return okOut(r.s.indexFlushImage(shard, j)) })
 	if out != "ok" {
-		r.err = fmt.Errorf("%s: %s", op, out)
+		r.abort(op, out)
 		return
 	}
 	r.c.Branch(fmt.Sprintf("crash-before-index-commit-%d", j))
@@ -530,8 +544,16 @@ func (area) Run(c *core.Ctx) error {
 			err = randomCase(c, rng, db)
 		}
 		if err != nil {
-			return fmt.Errorf("case %d: %w", i, err)
+			var he harnessError
+			if errors.As(err, &he) {
+				return fmt.Errorf("case %d: %w", i, err)
+			}
+			// lindb failed where it never does on the unchanged tree (open / recovery / flush error, panic):
+			// the case is the failing input. (A panic has its own "panic" line already.)
+			c.Fail("case-aborted", fmt.Sprintf("case %d could not go on: %v", i, err))
+			c.Branch("case-aborted")
 		}
+		c.Flush()
 	}
 	return nil
 }
